@@ -35,11 +35,31 @@ func c10IPDs() []int64 {
 	return l
 }
 
+// whole-second offsets: for every timeframe with an interval of at most 60 s ALL of them are enumerated by the case
+// index (1 + 10 + 30 + 60 = 101 cases), so that every run covers the offsets that reach the decoder's nanosecond carry
+func c10Enumerated(i int) (ipd, off int64, ok bool) {
+	for _, x := range c10IPDs() {
+		secs := 86400 / x
+		if secs > 60 {
+			continue
+		}
+		if int64(i) < secs {
+			return x, int64(i) * 1e9, true
+		}
+		i -= int(secs)
+	}
+	return 0, 0, false
+}
+
 func c10Gen(r *rng.Rand, i int, tier string) interface{} {
 	ipds := c10IPDs()
 	in := c10In{IPD: ipds[r.Intn(len(ipds))]}
 	if r.Chance(30) {
 		in.IPD = 86400 // 1Sec: the exactness claim
+	}
+	eIPD, eOff, enumerated := c10Enumerated(i)
+	if enumerated {
+		in.IPD = eIPD
 	}
 	n := int64(86400e9) / in.IPD // interval length in ns
 	in.Index = 1 + r.Range(0, 365*in.IPD-1)
@@ -49,7 +69,9 @@ func c10Gen(r *rng.Rand, i int, tier string) interface{} {
 	small := func() int64 { return r.Range(0, 40) - 20 }
 	pick := func() int64 {
 		var o int64
-		switch k := r.Intn(12); {
+		switch k := r.Intn(15); {
+		case k >= 12: // exact whole seconds and +-1..3 ns around them, every timeframe
+			o = r.Range(0, n/1e9-1)*1e9 + []int64{0, 0, 0, 1, -1, 2, -2, 3, -3}[r.Intn(9)]
 		case k == 0:
 			o = r.Range(0, 30) // interval start
 		case k == 1:
@@ -73,6 +95,9 @@ func c10Gen(r *rng.Rand, i int, tier string) interface{} {
 		return o
 	}
 	in.Off = pick()
+	if enumerated {
+		in.Off = eOff
+	}
 	switch k := r.Intn(4); {
 	case k == 0:
 		in.Off2 = in.Off + r.Range(0, 3)
